@@ -238,6 +238,20 @@ pub fn gen_c05(tier: &str, seed: u64, emit: &mut dyn FnMut(String)) {
         if i % 5 == 2 && w.live_pmt_pids().len() >= 2 { let l = w.live_pmt_pids(); let big = rng.chance(1, 2); w.send_pmts_interleaved(&l, "new", big, &mut rng); }
         else { for pid in w.live_pmt_pids() { let big = rng.chance(1, 6); w.send_pmt(pid, "new", 0, big, &mut rng); } }
         w.probes(&mut rng);
+        if shared && i % 2 == 1 && w.live_pmt_pids().len() >= 2 {
+            // the shared PID is dropped by the first program, then by the second one TOGETHER with another of its streams:
+            // a Remove of a PID that has no handler any more precedes the Remove of one that has
+            let l = w.live_pmt_pids(); let (p1, p2) = (l[0], l[1]);
+            let x = w.pmts[&p1].streams[0].1;
+            if w.pmts[&p2].streams.iter().any(|s| s.1 == x) {
+                { let m = w.pmts.get_mut(&p1).unwrap(); m.version = (m.version + 1) & 31; m.streams.retain(|s| s.1 != x); if m.streams.is_empty() { m.streams.push((0x1b, 0x1f00)); } }
+                w.send_pmt(p1, "new", 0, false, &mut rng); w.probes(&mut rng);
+                { let m = w.pmts.get_mut(&p2).unwrap(); m.version = (m.version + 1) & 31;
+                  let y = m.streams.iter().map(|s| s.1).filter(|q| *q != x).max();
+                  m.streams.retain(|s| s.1 != x && Some(s.1) != y); if m.streams.is_empty() { m.streams.push((0x1b, 0x1f01)); } }
+                w.send_pmt(p2, "new", 0, false, &mut rng); w.probes(&mut rng);
+            }
+        }
         if i % 23 == 11 && w.live_pmt_pids().len() >= 2 {
             // an elementary PID migrates: program 1 drops it, program 2 announces it later (never listed by both at once),
             // then program 1 changes again; it must stay with the handler program 2's map installed
